@@ -10,6 +10,7 @@ import (
 	"github.com/enbility/ship-go/logging"
 	"github.com/enbility/spine-go/api"
 	"github.com/enbility/spine-go/model"
+	"github.com/enbility/spine-go/util"
 )
 
 type DeviceRemote struct {
@@ -249,6 +250,12 @@ func (d *DeviceRemote) AddEntityAndFeatures(initialData bool, data *model.NodeMa
 				}
 			}
 		}
+
+		// NodeManagement exists on every device (see NewDeviceRemote), whatever the message lists
+		if reflect.DeepEqual(entityAddress, DeviceInformationAddressEntity) &&
+			entity.FeatureOfAddress(util.Ptr(model.AddressFeatureType(NodeManagementFeatureId))) == nil {
+			entity.AddFeature(NewFeatureRemote(NodeManagementFeatureId, entity, model.FeatureTypeTypeNodeManagement, model.RoleTypeSpecial))
+		}
 	}
 
 	return rEntites, nil
@@ -273,6 +280,14 @@ func (d *DeviceRemote) CheckEntityInformation(initialData bool, entity model.Nod
 	// Consider on initial NodeManagement Detailed Discovery, the device being empty as it is not yet known
 	if initialData {
 		return nil
+	}
+
+	// the device information entity carries NodeManagement, the source of every
+	// message of this device: it exists as long as the device is connected
+	if description.LastStateChange != nil &&
+		*description.LastStateChange == model.NetworkManagementStateChangeTypeRemoved &&
+		reflect.DeepEqual(description.EntityAddress.Entity, DeviceInformationAddressEntity) {
+		return errors.New("nodemanagement.replyDetailedDiscoveryData: the device information entity cannot be removed")
 	}
 
 	address := d.Address()
